@@ -222,7 +222,7 @@ def _is_instance(obj: Any, type_: Any, type_vars: Dict[TypeVar_, Any], context: 
     field_types = getattr(type_, '_field_types', None) or getattr(type_, '__annotations__', None)
 
     if hasattr(obj, '_asdict') and isinstance(type_, type) and field_types:  # a named tuple against a class with typed fields
-        if not obj._asdict().keys() == field_types.keys():
+        if not isinstance(obj, type_) or not obj._asdict().keys() == field_types.keys():
             return False
 
         return all([_is_instance(obj=obj._asdict()[k], type_=v, type_vars=type_vars, context=context) for k, v in field_types.items()])
